@@ -13,7 +13,7 @@ import (
 // compared with the POSIX table.
 
 func init() {
-	register("R-GRAMMAR", "the expression grammar as implemented: starting from the general and the print-context expression entry points, each precedence level is extracted from the parser's functions (higher-order helpers partially evaluated with their bound method values) as <operator tokens, associativity (loop = left, self-recursion = right, single test = none), operand levels>, and the resulting chain must equal the POSIX table: assignment (right) < ?: (right, arms at the context's lowest level) < || < && < in < ~ !~ (non-assoc) < relational (non-assoc; without > in print context) < concatenation < + - < * / % < unary ! + - (operand at the ^ level) < ^ (right) < postfix ++ -- < $ (operand primary) < grouping; `expr | getline` wraps the ?: level and exists only outside print context; a recursive-descent parser's grouping is exactly this structure, so equality decides grouping for every expression", ruleGrammar)
+	register("R-GRAMMAR", "the expression grammar as implemented, obtained by evaluating each level function of the recursive-descent parser once per lexer token on its SSA form (the token is known from the point the left operand was parsed until a call that can advance the lexer; pure predicates are evaluated on constants; helpers that take the parsed operand are entered; a function that forwards to a helper with bound method values and tokens is resolved to it): per level the operator tokens it consumes, associativity (control returns to a block seen before the operator = left, the right operand is the level itself = right, else none) and operand levels; the chains from the general and the print-context entry points must equal the POSIX table: assignment (right) < ?: (right, arms at the context's lowest level) < || < && < in < ~ !~ (non-assoc) < relational (non-assoc; without > in print context) < concatenation < + - < * / % < unary ! + - (operand at the ^ level, on every path) < ^ (right) < postfix ++ -- < $ (operand primary) < grouping; `expr | getline` wraps the ?: level and exists only outside print context; a recursive-descent parser's grouping is exactly this structure, so equality decides grouping for every expression", ruleGrammar)
 }
 
 type gLevel struct {
